@@ -166,6 +166,8 @@ struct FetchState {
     threshold_secs: u64,
     /// record mode: cleanup phase, answer immediately
     fast: AtomicBool,
+    /// record mode, directed scenario: the first lookup waits for the director
+    gate_first: AtomicBool,
 }
 
 #[derive(Clone)]
@@ -201,6 +203,11 @@ impl PathFetcher for Fetcher {
                 FetchMode::Random { seed } => {
                     hev("fetch_call", "", w, key_of(dst), "");
                     let mut rng = Rng::new(seed.wrapping_mul(1_000_003).wrapping_add(n * 7919 + w));
+                    if st.gate_first.swap(false, Ordering::SeqCst) {
+                        let (tx, rx) = oneshot::channel();
+                        st.pending.lock().unwrap().insert(w, tx);
+                        let _ = tokio::time::timeout(Duration::from_secs(3), rx).await;
+                    }
                     if !st.fast.load(Ordering::SeqCst) {
                         match rng.below(4) {
                             0 => {}
@@ -463,6 +470,7 @@ struct ReplayOut {
 }
 
 fn replay_one(sched: &Value, idle_ms: u64) -> ReplayOut {
+    const GATE_FIRST: bool = false;
     reset_all();
     let h = sched["h"].as_array().expect("h").clone();
     let fin = sched["final"].clone();
@@ -495,6 +503,7 @@ fn replay_one(sched: &Value, idle_ms: u64) -> ReplayOut {
             calls: AtomicU64::new(0),
             threshold_secs: threshold,
             fast: AtomicBool::new(false),
+            gate_first: AtomicBool::new(GATE_FIRST),
         });
         let mut mgr: Option<Mgr> = Some(MultiPathManager::new(cfg, Fetcher(fst.clone()), PathStrategy::default()).expect("config"));
         let mut callers: BTreeMap<String, Caller> = BTreeMap::new();
@@ -803,7 +812,9 @@ fn cmd_replay(inp: &str, outp: &str) {
             violating += 1;
         }
         out.write(&json!({"id": row["id"], "obs": r.obs, "conf": r.conf, "mis": r.mis, "pv": r.pv, "timing": r.timing, "unsched": r.unsched, "fetches": r.fetches, "events": r.trace.len()}));
-        tr.write(&json!({"ev": "reset", "nw": row["final"]["w"].as_array().map(|a| a.len()).unwrap_or(2), "callers": row["callers"], "id": row["id"]}));
+        let spec_nw = row["final"]["w"].as_array().map(|a| a.len()).unwrap_or(2);
+        let real_nw = r.trace.iter().filter(|e| e["ev"] == "map_insert").count();
+        tr.write(&json!({"ev": "reset", "nw": spec_nw.max(real_nw), "callers": row["callers"], "id": row["id"]}));
         for e in r.trace {
             tr.write(&e);
         }
@@ -888,15 +899,37 @@ fn record_one(seed: u64) -> RecOut {
     // one run in eight follows a directed scenario: a cached_path caller creates the worker, the
     // manager is dropped before the worker's first poll, handles of that worker are awaited
     // (the only situation in which the notification of the exit path is what releases a waiter)
-    let directed = rng.chance(1, 8);
+    let template = rng.below(8); // 0: dropped before the first poll; 1: waiter held across the answer
+    let directed = template == 0;
     let slow_start = directed;
+    // directed scenario 1 (the lost-wake-up schedule TLC finds on PathSync_Broken): a path_wait caller
+    // is held right after its critical section in await_ongoing_update (check + registration) while
+    // the pending lookup is answered and the worker finishes; then the caller goes on to await
+    let hold = template == 1;
+    let hold_state: Arc<(Mutex<(bool, bool, bool)>, std::sync::Condvar)> =
+        Arc::new((Mutex::new((hold, false, false)), std::sync::Condvar::new())); // (armed, reached, released)
     // yield points: seeded per (run, thread-local counter)
     let ycount = Arc::new(AtomicU64::new(0));
     {
         let yc = ycount.clone();
+        let hold_cb = hold_state.clone();
         verif_sync::set_yield(Some(Arc::new(move |name: &'static str| {
             let n = yc.fetch_add(1, Ordering::Relaxed);
             let mut r = Rng::new(seed ^ (n.wrapping_mul(0x2545_F491_4F6C_DD1D)) ^ (name.len() as u64) << 40);
+            if name == "await.registered" {
+                let (m, cv) = &*hold_cb;
+                let mut g = m.lock().unwrap();
+                if g.0 {
+                    g.0 = false;
+                    g.1 = true;
+                    cv.notify_all();
+                    let t0 = Instant::now();
+                    while !g.2 && t0.elapsed() < Duration::from_secs(3) {
+                        g = cv.wait_timeout(g, Duration::from_millis(50)).unwrap().0;
+                    }
+                    return;
+                }
+            }
             if name == "worker.start" && slow_start {
                 // directed scenario: the manager is dropped before the worker's first poll
                 std::thread::sleep(Duration::from_micros(600));
@@ -920,6 +953,8 @@ fn record_one(seed: u64) -> RecOut {
     }
     let rt = tokio::runtime::Builder::new_multi_thread().worker_threads(4).enable_all().build().expect("runtime");
     let plan_seed = rng.next_u64();
+    #[allow(non_snake_case)]
+    let GATE_FIRST = hold;
     let out = rt.block_on(async move {
         let mut rng = Rng::new(plan_seed);
         let fst = Arc::new(FetchState {
@@ -928,6 +963,7 @@ fn record_one(seed: u64) -> RecOut {
             calls: AtomicU64::new(0),
             threshold_secs: threshold,
             fast: AtomicBool::new(false),
+            gate_first: AtomicBool::new(GATE_FIRST),
         });
         let mut mgr: Option<Mgr> = Some(MultiPathManager::new(cfg, Fetcher(fst.clone()), PathStrategy::default()).expect("config"));
         let mut names: HashMap<tokio::task::Id, String> = HashMap::new();
@@ -957,6 +993,45 @@ fn record_one(seed: u64) -> RecOut {
             mgr = None;
             hev("drop", "", 0, 0, "");
             *stats.entry("drops".into()).or_default() += 1;
+        }
+        if hold {
+            let i = to_start.pop().unwrap();
+            let name = format!("w1_{}", i + 1);
+            meta_callers.insert(name.clone(), json!({"kind": "wait", "k": 1}));
+            hev("caller_start", &name, 0, 1, "wait");
+            let j = spawn_api_caller(mgr.as_ref().unwrap(), &name, "wait", 1);
+            names.insert(j.id(), name.clone());
+            callers.push(Caller { name, join: Some(j), res: None, started: Some(Instant::now()) });
+            *stats.entry("callers_wait".into()).or_default() += 1;
+            *stats.entry("directed_hold".into()).or_default() += 1;
+            // wait until the caller sits right after its critical section
+            let t0 = Instant::now();
+            while !hold_state.0.lock().unwrap().1 && t0.elapsed() < Duration::from_secs(2) {
+                tokio::time::sleep(Duration::from_micros(200)).await;
+            }
+            // answer the lookup and let the worker finish (clear flags, notify)
+            let t0 = Instant::now();
+            loop {
+                let tx = { fst.pending.lock().unwrap().drain().map(|(_, tx)| tx).next() };
+                if let Some(tx) = tx {
+                    let _ = tx.send(Outcome::Ok);
+                    break;
+                }
+                if t0.elapsed() > Duration::from_secs(2) {
+                    break;
+                }
+                tokio::time::sleep(Duration::from_micros(200)).await;
+            }
+            let t0 = Instant::now();
+            while !LOG.lock().unwrap().iter().any(|e| e.kind == "fetch_done") && t0.elapsed() < Duration::from_secs(2) {
+                tokio::time::sleep(Duration::from_micros(200)).await;
+            }
+            // now the caller may go on to await its notification
+            {
+                let (m, cv) = &*hold_state;
+                m.lock().unwrap().2 = true;
+                cv.notify_all();
+            }
         }
         while !to_start.is_empty() || mgr.is_some() {
             nsteps += 1;
